@@ -352,24 +352,27 @@ theorem verdict_wrong_key (H : Bytes → Bytes) (key key' value : Bytes) (path :
     | unlinked => simp [hw] at hpos
     | error => simp [hw] at hpos
 
+/-- the loop spells the key the way the tree does: for the honest proof it ends with the tree's hash and has assembled
+    `trace`, i.e. for every visited branch its own path first, then the nibble of the link taken (the order repaired in
+    /repo by e003475f9; before that the link nibble was written first). -/
+theorem walk_spells_trace (H : Bytes → Bytes) (t : PTree) (key : List Nat) (hwf : t.WF) (hne : t.isEmpty = false)
+    (hidx : t.IndexOK H key) : walk H (t.proof H key) = .ok (t.hash H) (t.trace key) :=
+  walk_proof H t key hwf hne hidx
+
 /-
 **verdict_positive** (full statement, NOT a theorem of the code as it stands):
   `t.WF → t.lookup (nibbles key) = some value → t.hash H ∈ roots →
      provePatricia H key value (t.proof H (nibbles key)) (H roots.flatten) roots = some .validPositive`
-It fails in two ways, both reproduced on the real code by the correspondence check (known findings) and both shown
-below as theorems of the model for every `H` (`defect_index_before_branch_path`, `defect_equal_sibling_hashes`):
-  * the loop writes each link nibble *before* the path of the branch it leaves, so a visited branch (other than the
-    last node) with a non-empty path spoils the assembled key (`EmptyAbove` excludes this);
-  * the child is located by `links.index(hash)`, so an earlier sibling with the same hash is taken instead
-    (`IndexOK` excludes this).
+It fails because the child is located by `links.index(hash)`: an earlier sibling with the same hash is taken instead
+(`IndexOK` excludes this). The excluded point is reproduced on the real code by the correspondence check (open known
+finding) and shown below as a theorem of the model for every `H` (`defect_equal_sibling_hashes`).
 -/
 
-/-- **verdict_positive_partial**: present with the right value ⇒ `VALID_POSITIVE`, under the explicit hypotheses that
-    along the key no earlier sibling link carries the chosen child's hash (`IndexOK`) and that every branch left
-    through a link has an empty path (`EmptyAbove`). -/
+/-- **verdict_positive_partial**: present with the right value ⇒ `VALID_POSITIVE`, under the explicit hypothesis that
+    along the key no earlier sibling link carries the chosen child's hash (`IndexOK`). -/
 theorem verdict_positive_partial (H : Bytes → Bytes) (t : PTree) (key value : Bytes) (roots : List Bytes)
     (hwf : t.WF) (hlook : t.lookup (nibbles key) = some value) (hroot : t.hash H ∈ roots)
-    (hidx : t.IndexOK H (nibbles key)) (hempty : t.EmptyAbove (nibbles key)) :
+    (hidx : t.IndexOK H (nibbles key)) :
     provePatricia H key value (t.proof H (nibbles key)) (H roots.flatten) roots = some .validPositive := by
   obtain ⟨⟨p, hlast⟩, htrace⟩ := lookup_some H t (nibbles key) value hlook
   have hne : t.isEmpty = false := by
@@ -386,7 +389,7 @@ theorem verdict_positive_partial (H : Bytes → Bytes) (t : PTree) (key value : 
   rw [provePatricia_anchored H key value _ roots node _ (t.hash H) (by rw [proof_head, hnode]) hlast
     (node_hash H t hwf node hnode) hroot]
   simp only [bne_self_eq_false, Bool.false_eq_true, if_false]
-  rw [walk_proof H t (nibbles key) hwf hne hidx, codeTrace_eq_trace t _ hempty, htrace]
+  rw [walk_proof H t (nibbles key) hwf hne hidx, htrace]
   simp
 
 /-- present with another value ⇒ `LEAF_VALUE_MISMATCH` (no side condition) -/
@@ -404,10 +407,10 @@ theorem verdict_wrong_value (H : Bytes → Bytes) (t : PTree) (key value stored 
     (node_hash H t hwf node hnode) hroot hv
 
 /-- **verdict_dead_end_partial**: absent at a dead end (the lookup reaches a branch whose slot for the next key nibble
-    is empty) ⇒ `VALID_NEGATIVE`, under `IndexOK` and `EmptyAbove`. -/
+    is empty) ⇒ `VALID_NEGATIVE`, under `IndexOK`. -/
 theorem verdict_dead_end_partial (H : Bytes → Bytes) (t : PTree) (key value : Bytes) (roots : List Bytes)
     (hwf : t.WF) (hdead : t.deadEnd (nibbles key) = true) (hroot : t.hash H ∈ roots)
-    (hidx : t.IndexOK H (nibbles key)) (hempty : t.EmptyAbove (nibbles key)) :
+    (hidx : t.IndexOK H (nibbles key)) :
     provePatricia H key value (t.proof H (nibbles key)) (H roots.flatten) roots = some .validNegative := by
   obtain ⟨p, ch, n, rest, hlast, hkey, hn, he⟩ := deadEnd_spec H t (nibbles key) hdead
   have hne : t.isEmpty = false := by
@@ -424,7 +427,7 @@ theorem verdict_dead_end_partial (H : Bytes → Bytes) (t : PTree) (key value : 
   rw [provePatricia_anchored H key value _ roots node _ (t.hash H) (by rw [proof_head, hnode]) hlast
     (node_hash H t hwf node hnode) hroot]
   simp only [branchNode]
-  rw [walk_proof H t (nibbles key) hwf hne hidx, codeTrace_eq_trace t _ hempty]
+  rw [walk_proof H t (nibbles key) hwf hne hidx]
   simp only
   have hpre : (t.trace (nibbles key)).isPrefixOf (nibbles key) = true := by
     rw [List.isPrefixOf_iff_prefix]
@@ -436,15 +439,15 @@ theorem verdict_dead_end_partial (H : Bytes → Bytes) (t : PTree) (key value : 
   simp only [hpre, Bool.not_true, Bool.false_eq_true, if_false, hnext, links_get, hn, dif_pos]
   simp [PTree.link, he]
 
-/-- **verdict_inconclusive_partial**: a proof whose assembled path is a prefix of the key (for instance any
-    `VALID_POSITIVE`/`VALID_NEGATIVE` proof), cut after a branch with an empty path and at most 16 links, is
-    `INCONCLUSIVE`: the cut ends at a branch whose link for the next key nibble continues. The empty-path condition
-    on the last kept node is again the link-nibble-before-path ordering. -/
-theorem verdict_inconclusive_partial (H : Bytes → Bytes) (key value : Bytes) (pre post : List Node)
+/-- **verdict_inconclusive**: a proof whose assembled path is a prefix of the key (for instance any
+    `VALID_POSITIVE`/`VALID_NEGATIVE` proof), cut after a branch with at most 16 links, is `INCONCLUSIVE`: the cut ends at
+    a branch whose link for the next key nibble continues. (No condition on hashes: whichever slot `links.index` reports,
+    it holds a link.) -/
+theorem verdict_inconclusive (H : Bytes → Bytes) (key value : Bytes) (pre post : List Node)
     (roots : List Bytes) (first : Node) (h0 hfull : Bytes) (actual : List Nat) (p : Path) (links : List (Option Bytes))
     (hpre : pre ≠ []) (hpost : post ≠ [])
     (hf : pre.head? = some first) (hh : nodeHash H first = some h0) (hr : h0 ∈ roots)
-    (hlast : pre.getLast? = some (.branch p links)) (hp : hexPath p = []) (hlinks : links.length ≤ 16)
+    (hlast : pre.getLast? = some (.branch p links)) (hlinks : links.length ≤ 16)
     (hw : walk H (pre ++ post) = .ok hfull actual) (hprefix : actual <+: nibbles key) :
     provePatricia H key value pre (H roots.flatten) roots = some .inconclusive := by
   obtain ⟨a0, p', links', child, apost, hlast', _, hmem, hwpre, hact⟩ := walk_prefix H post hpost pre hfull actual hpre hw
@@ -452,7 +455,7 @@ theorem verdict_inconclusive_partial (H : Bytes → Bytes) (key value : Bytes) (
   simp only [Option.some.injEq, Node.branch.injEq] at hlast'
   obtain ⟨rfl, rfl⟩ := hlast'
   rw [provePatricia_anchored H key value pre roots first _ h0 hf hlast hh hr]
-  simp only [hwpre, hp, List.append_nil] at hact ⊢
+  simp only [hwpre]
   have hk : links.idxOf (some child) < 16 := Nat.lt_of_lt_of_le (List.idxOf_lt_length_of_mem hmem) hlinks
   rw [hexDigitsOf_lt _ hk] at hact
   obtain ⟨more, hmore⟩ := hprefix
@@ -465,9 +468,10 @@ theorem verdict_inconclusive_partial (H : Bytes → Bytes) (key value : Bytes) (
   simp only [hpre', Bool.not_true, Bool.false_eq_true, if_false, hnext, idxOf_getElem? links (some child) hmem]
 
 /-- **verdict_truncated_partial**: for any tree and key whose lookup path spells a prefix of the key (present, dead end,
-    …), the honest proof cut after `m` nodes (`0 < m <` its length) is `INCONCLUSIVE` — under `IndexOK` and `EmptyAbove`. -/
+    …), the honest proof cut after `m` nodes (`0 < m <` its length) is `INCONCLUSIVE` — under `IndexOK` (needed only to know
+    that the uncut proof spells `trace`). -/
 theorem verdict_truncated_partial (H : Bytes → Bytes) (t : PTree) (key value : Bytes) (roots : List Bytes) (m : Nat)
-    (hwf : t.WF) (hroot : t.hash H ∈ roots) (hidx : t.IndexOK H (nibbles key)) (hempty : t.EmptyAbove (nibbles key))
+    (hwf : t.WF) (hroot : t.hash H ∈ roots) (hidx : t.IndexOK H (nibbles key))
     (hfollow : t.trace (nibbles key) <+: nibbles key) (hm : 0 < m) (hlt : m < (t.proof H (nibbles key)).length) :
     provePatricia H key value ((t.proof H (nibbles key)).take m) (H roots.flatten) roots = some .inconclusive := by
   have hne : t.isEmpty = false := by
@@ -480,9 +484,8 @@ theorem verdict_truncated_partial (H : Bytes → Bytes) (t : PTree) (key value :
     | leaf q v => exact ⟨_, rfl⟩
     | branch q ch => exact ⟨_, rfl⟩
   obtain ⟨node, hnode⟩ := hnode
-  obtain ⟨ch, hch⟩ := proof_nonlast_branch H t (nibbles key) (m - 1) (by omega) hempty
+  obtain ⟨p, ch, hch⟩ := proof_nonlast_branch H t (nibbles key) (m - 1) (by omega)
   have hw := walk_proof H t (nibbles key) hwf hne hidx
-  rw [codeTrace_eq_trace t _ hempty] at hw
   have hsplit : (t.proof H (nibbles key)).take m ++ (t.proof H (nibbles key)).drop m = t.proof H (nibbles key) :=
     List.take_append_drop m _
   have hpre : (t.proof H (nibbles key)).take m ≠ [] := by
@@ -497,28 +500,29 @@ theorem verdict_truncated_partial (H : Bytes → Bytes) (t : PTree) (key value :
     omega
   have hhead : ((t.proof H (nibbles key)).take m).head? = some node := by
     rw [List.head?_take, if_neg (by omega), proof_head, hnode]
-  have hlast : ((t.proof H (nibbles key)).take m).getLast? = some (.branch (toPath []) (List.ofFn fun i => (ch i).link H)) := by
+  have hlast : ((t.proof H (nibbles key)).take m).getLast? = some (.branch (toPath p) (List.ofFn fun i => (ch i).link H)) := by
     rw [List.getLast?_eq_getElem?]
     simp only [List.length_take, Nat.min_eq_left (Nat.le_of_lt hlt)]
     rw [List.getElem?_take, if_pos (by omega), hch]
     rfl
-  exact verdict_inconclusive_partial H key value _ _ roots node (t.hash H) (t.hash H) (t.trace (nibbles key)) (toPath [])
+  exact verdict_inconclusive H key value _ _ roots node (t.hash H) (t.hash H) (t.trace (nibbles key)) (toPath p)
     (List.ofFn fun i => (ch i).link H) hpre hpost hhead (node_hash H t hwf node hnode) hroot hlast
-    (hexPath_toPath [] (by simp)) (by simp) (by rw [hsplit]; exact hw) hfollow
+    (by simp) (by rw [hsplit]; exact hw) hfollow
 
-/-! ### the two defects of the verifier, as theorems of the model (for every hash function) -/
+/-! ### a branch with a non-empty path above the leaf (the case repaired by e003475f9), and the open `links.index` defect -/
 
 /-- a branch with path `0` whose only child, a leaf with empty path, hangs under nibble `1`: the key `01` is present -/
 def branchPathTree (v : Bytes) : PTree :=
   .branch [0] fun i => if i.val = 1 then .leaf [] v else .empty
 
-/-- **defect_index_before_branch_path**: the honest proof of the present key `01` is `PATH_MISMATCH`, and the same proof
-    is `VALID_POSITIVE` for the absent key `10`. -/
-theorem defect_index_before_branch_path (H : Bytes → Bytes) (v : Bytes) :
+/-- **branch_path_before_link_nibble**: the honest proof of the present key `01` is `VALID_POSITIVE`, and the same proof is
+    `PATH_MISMATCH` for the absent key `10` (with the link nibble written first, as before the repair, the two verdicts
+    were exchanged). An instance of `verdict_positive_partial` / `verdict_wrong_key` whose hypotheses hold for every `H`. -/
+theorem branch_path_before_link_nibble (H : Bytes → Bytes) (v : Bytes) :
     let t := branchPathTree v
     t.WF ∧ t.IndexOK H [0, 1] ∧ t.lookup [0, 1] = some v ∧ t.lookup [1, 0] = none ∧
-    provePatricia H [0x01] v (t.proof H [0, 1]) (H [t.hash H].flatten) [t.hash H] = some .pathMismatch ∧
-    provePatricia H [0x10] v (t.proof H [0, 1]) (H [t.hash H].flatten) [t.hash H] = some .validPositive := by
+    provePatricia H [0x01] v (t.proof H [0, 1]) (H [t.hash H].flatten) [t.hash H] = some .validPositive ∧
+    provePatricia H [0x10] v (t.proof H [0, 1]) (H [t.hash H].flatten) [t.hash H] = some .pathMismatch := by
   intro t
   have hwf : t.WF := by
     refine ⟨by simp, fun i => ?_⟩
@@ -536,19 +540,14 @@ theorem defect_index_before_branch_path (H : Bytes → Bytes) (v : Bytes) :
     simp [t, branchPathTree, PTree.lookup, hstep]
   have hlook' : t.lookup [1, 0] = none := by
     simp [t, branchPathTree, PTree.lookup, hstep']
-  have hne : t.isEmpty = false := rfl
-  have hw := walk_proof H t [0, 1] hwf hne hidx
-  have hct : t.codeTrace [0, 1] = [1, 0] := by
-    simp [t, branchPathTree, PTree.codeTrace, hstep, PTree.isEmpty]
-  obtain ⟨⟨q, hlast⟩, _⟩ := lookup_some H t [0, 1] v hlook
+  have hn1 : nibbles [0x01] = [0, 1] := by simp [nibbles]
+  have hpos : provePatricia H [0x01] v (t.proof H [0, 1]) (H [t.hash H].flatten) [t.hash H] = some .validPositive := by
+    have := verdict_positive_partial H t [0x01] v [t.hash H] hwf (by rw [hn1]; exact hlook) (by simp) (by rw [hn1]; exact hidx)
+    rwa [hn1] at this
   have hnode : t.node H = some (branchNode H [0] fun i => if i.val = 1 then .leaf [] v else .empty) := rfl
-  have hanch := fun key => provePatricia_anchored H key v (t.proof H [0, 1]) [t.hash H] _ _ (t.hash H)
-    (by rw [proof_head, hnode]) hlast (node_hash H t hwf _ hnode) (by simp)
-  refine ⟨hwf, hidx, hlook, hlook', ?_, ?_⟩
-  · rw [hanch, hw, hct]
-    simp [nibbles]
-  · rw [hanch, hw, hct]
-    simp [nibbles]
+  refine ⟨hwf, hidx, hlook, hlook', hpos, ?_⟩
+  exact verdict_wrong_key H [0x01] [0x10] v _ [t.hash H] _ (t.hash H) (by rw [proof_head, hnode])
+    (node_hash H t hwf _ hnode) (by simp) hpos (by simp [nibbles])
 
 /-- two sibling leaves with equal remaining path and value under nibbles `0` and `1` of a root branch with empty path -/
 def equalSiblingTree (v : Bytes) : PTree :=
@@ -558,7 +557,7 @@ def equalSiblingTree (v : Bytes) : PTree :=
     child under slot 0). -/
 theorem defect_equal_sibling_hashes (H : Bytes → Bytes) (v : Bytes) :
     let t := equalSiblingTree v
-    t.WF ∧ t.EmptyAbove [1, 2] ∧ t.lookup [1, 2] = some v ∧
+    t.WF ∧ t.lookup [1, 2] = some v ∧
     provePatricia H [0x12] v (t.proof H [1, 2]) (H [t.hash H].flatten) [t.hash H] = some .pathMismatch := by
   intro t
   have hwf : t.WF := by
@@ -567,11 +566,9 @@ theorem defect_equal_sibling_hashes (H : Bytes → Bytes) (v : Bytes) :
   have hstep : stepKey [] [1, 2] = some (1, [2]) := by decide
   have hlook : t.lookup [1, 2] = some v := by
     simp [t, equalSiblingTree, PTree.lookup, hstep]
-  have hempty : t.EmptyAbove [1, 2] := by
-    simp [t, equalSiblingTree, PTree.EmptyAbove, hstep]
   obtain ⟨⟨q, hlast⟩, _⟩ := lookup_some H t [1, 2] v hlook
   have hnode : t.node H = some (branchNode H [] fun i => if i.val ≤ 1 then .leaf [2] v else .empty) := rfl
-  refine ⟨hwf, hempty, hlook, ?_⟩
+  refine ⟨hwf, hlook, ?_⟩
   rw [provePatricia_anchored H [0x12] v (t.proof H [1, 2]) [t.hash H] _ _ (t.hash H)
     (by rw [proof_head, hnode]) hlast (node_hash H t hwf _ hnode) (by simp)]
   have hleafhash : nodeHash H (.leaf (toPath [2]) v) = some ((PTree.leaf [2] v).hash H) :=
@@ -632,8 +629,5 @@ example (v w : Bytes) : (sampleTree v w).lookup [3, 4] = some v ∧ (sampleTree 
   have h1 : stepKey [] [3, 4] = some (3, [4]) := by decide
   have h2 : stepKey [] [5, 4] = some (5, [4]) := by decide
   simp [sampleTree, PTree.lookup, PTree.deadEnd, h1, h2, PTree.isEmpty]
-example (v w : Bytes) : (sampleTree v w).EmptyAbove [3, 4] := by
-  have h1 : stepKey [] [3, 4] = some (3, [4]) := by decide
-  simp [sampleTree, PTree.EmptyAbove, h1]
 
 end SymbolVerif.C09
